@@ -39,6 +39,11 @@ impl Obj {
         self.0.push(']');
         self
     }
+    /// Insert pre-formatted JSON.
+    pub fn raw(mut self, k: &str, json: &str) -> Self {
+        let _ = write!(self.0, ",\"{}\":{}", k, json);
+        self
+    }
     pub fn done(mut self) -> String {
         self.0.push('}');
         self.0
